@@ -96,6 +96,7 @@ pub fn make_builder_cb(
                     s.acc.expect = *expect;
                     // every third such system leaves `System::setup` to the library's default
                     if *sid % 3 == 2 {
+                        s.acc.default_setup = true;
                         b.add(DynSysDefaultSetup(s), name, &d);
                     } else {
                         b.add(s, name, &d);
@@ -138,6 +139,8 @@ pub struct Layout {
     pub pos: Vec<Option<(usize, usize, usize)>>,
     pub shape_ok: bool,
     pub problems: Vec<String>,
+    /// the identification dispatch (a `dispatch_seq` right after `Dispatcher::setup`) panicked
+    pub ident_panic: Option<String>,
 }
 
 impl Layout {
@@ -278,9 +281,15 @@ pub fn identify(ctx: &Arc<Ctx>, disp: &mut Dispatcher<'static, 'static>, world: 
     ctx.events.lock().unwrap().clear();
     let (shape, tl) = disp.verif_shape();
     ctx.dispatching.store(true, Ordering::SeqCst);
-    disp.dispatch_seq(world);
+    let r = std::panic::catch_unwind(std::panic::AssertUnwindSafe(|| disp.dispatch_seq(world)));
     ctx.dispatching.store(false, Ordering::SeqCst);
     ctx.mode.store(0, Ordering::SeqCst);
+    if let Err(p) = r {
+        lay.ident_panic = Some(crate::util::payload_string(&p));
+        lay.shape_ok = false;
+        ctx.events.lock().unwrap().clear();
+        return lay;
+    }
     let evs = std::mem::take(&mut *ctx.events.lock().unwrap());
     let mut order_of = |parent: Option<usize>| -> Vec<usize> {
         let mut v = Vec::new();
